@@ -98,9 +98,27 @@ func c13Packets(c *sim.Ctx) ([]mq.Packet, []string) {
 			cfg := specCfg(c)
 			cfg.NoHuge = true
 			f, _ := ref.Encode(gen.Packet(t, cfg))
-			if o := ReadOne(link.NewReader(c, f, link.Mode{})); o.Kind == "packet" {
-				ps = append(ps, o.P)
-				hows = append(hows, typeName(o.Type)+" decoded")
+			if t.Bool(1, 8) {
+				// the shortest frame there is: a first byte and remaining length 0, of any type
+				// incl. the reserved type 0 (what ReadPacket returns for it has not been
+				// through any body decoding)
+				typ := byte(t.Int(16))
+				if t.Bool(1, 4) {
+					typ = 0
+				}
+				f = []byte{typ<<4 | ref.ReservedFlags(typ), 0x00}
+				if typ == 0 || typ == ref.Publish {
+					f[0] = typ<<4 | byte(t.Int(16))
+				}
+				c.Count("probe.packet-decoded-from-a-frame-of-remaining-length-0")
+			}
+			// (decoded by a bare ReadPacket call: no accessor is called on the packet
+			// before the goroutines get it)
+			var dp mq.Packet
+			var derr error
+			if pi := sim.Guard(func() { dp, derr = mq.ReadPacket(link.NewReader(c, f, link.Mode{})) }); pi == nil && derr == nil && !isNilPacket(dp) {
+				ps = append(ps, dp)
+				hows = append(hows, typeName(drv.TypeOf(dp))+" decoded from "+hexs(f[:min(len(f), 8)]))
 				continue
 			}
 		}
